@@ -45,6 +45,7 @@ type Clause struct {
 	Loop  int    // invariant: loop ordinal
 	At    string // assert: callee key
 	AtN   int    // assert: occurrence (0 = all)
+	AtLine string // assert: only call sites whose source line contains this text
 	File  string
 	Line  int
 }
@@ -98,13 +99,21 @@ type ContractSet struct {
 	Defines  map[string]*Define // key: type + "." + name
 	Strings  []string           // string literals occurring in contract expressions
 	Assumes  []*Clause          // global assumptions (about package-level variables)
+	Preds    map[string]*Pred   // parameterised macros
+	BoxedNonNil []string        // package paths whose pointer types are never boxed as typed nils
+}
+
+type Pred struct {
+	Name   string
+	Params []string
+	Expr   ast.Expr
 }
 
 func newContractSet() *ContractSet {
-	return &ContractSet{Aliases: map[string]string{}, Funcs: map[string]*Contract{}, Ghosts: map[string]*GhostField{}, TypeInvs: map[string][]*TypeInv{}, Consts: map[string]ast.Expr{}, Defines: map[string]*Define{}}
+	return &ContractSet{Aliases: map[string]string{}, Funcs: map[string]*Contract{}, Ghosts: map[string]*GhostField{}, TypeInvs: map[string][]*TypeInv{}, Consts: map[string]ast.Expr{}, Defines: map[string]*Define{}, Preds: map[string]*Pred{}}
 }
 
-var keywordRe = regexp.MustCompile(`^(alias|assume|func|extern|interface|ghost|smt|typeinv|const|define|requires|ensures|loop|assigns|panics|pure|trusted|at|inline)\b`)
+var keywordRe = regexp.MustCompile(`^(alias|assume|boxednonnil|pred|func|extern|interface|ghost|smt|typeinv|const|define|requires|ensures|loop|assigns|panics|pure|trusted|at|inline)\b`)
 
 type rawLine struct {
 	indent int
@@ -186,6 +195,24 @@ func (cs *ContractSet) loadFile(file string, pkgPrefix string) error {
 				return fail("alias <name> <pkgpath>")
 			}
 			cs.Aliases[f[0]] = f[1]
+		case "boxednonnil":
+			cs.BoxedNonNil = append(cs.BoxedNonNil, cs.expand(rest+".")[:len(cs.expand(rest+"."))-1])
+		case "pred":
+			m := regexp.MustCompile(`^(\w+)\(([^)]*)\)\s*=\s*(.*)$`).FindStringSubmatch(rest)
+			if m == nil {
+				return fail("pred name(params) = expr")
+			}
+			e, err := cs.parseExpr(m[3])
+			if err != nil {
+				return fail("%v", err)
+			}
+			pd := &Pred{Name: m[1], Expr: e}
+			for _, p := range strings.Split(m[2], ",") {
+				if p = strings.TrimSpace(p); p != "" {
+					pd.Params = append(pd.Params, p)
+				}
+			}
+			cs.Preds[pd.Name] = pd
 		case "assume":
 			cl, err := cs.parseClause("assume", rest, l)
 			if err != nil {
@@ -294,11 +321,11 @@ func (cs *ContractSet) loadFile(file string, pkgPrefix string) error {
 				cl.Loop, _ = strconv.Atoi(m[1])
 				cur.Invs = append(cur.Invs, cl)
 			case "at":
-				m := regexp.MustCompile(`^(\S+)(?:\s+#(\d+))?\s+assert\b(.*)$`).FindStringSubmatch(rest)
+				m := regexp.MustCompile(`^(\S+)(?:\s+#(\d+))?(?:\s+line\s+"([^"]*)")?\s+assert\b(.*)$`).FindStringSubmatch(rest)
 				if m == nil {
-					return fail("at <callee> [#n] assert expr")
+					return fail("at <callee> [#n] [line \"text\"] assert expr")
 				}
-				cl, err := cs.parseClause("assert", strings.TrimSpace(m[3]), l)
+				cl, err := cs.parseClause("assert", strings.TrimSpace(m[4]), l)
 				if err != nil {
 					return err
 				}
@@ -306,6 +333,7 @@ func (cs *ContractSet) loadFile(file string, pkgPrefix string) error {
 				if m[2] != "" {
 					cl.AtN, _ = strconv.Atoi(m[2])
 				}
+				cl.AtLine = m[3]
 				cur.Asserts = append(cur.Asserts, cl)
 			case "assigns":
 				cur.HasAssigns = true
@@ -390,8 +418,11 @@ func shortLabel(s string) string {
 //   A <==> B                     -> iff(A, B)
 //   forall i in lo..hi :: P      -> forall(i, lo, hi, P)   (extends to the end of the enclosing parens)
 //   exists i in lo..hi :: P      -> exists(i, lo, hi, P)
+var dollarRe = regexp.MustCompile(`\$(\w+)`)
+
 func (cs *ContractSet) parseExpr(s string) (ast.Expr, error) {
 	g := rewriteExpr(strings.TrimSpace(s))
+	g = dollarRe.ReplaceAllString(g, "ARG_$1")
 	e, err := parser.ParseExpr(g)
 	if err != nil {
 		return nil, fmt.Errorf("%v [rewritten: %s]", err, g)
